@@ -641,7 +641,8 @@ func (i *Iter) Int() (int64, error) {
 			return 0, errors.New("corrupt input: expected float, but no more values on tape")
 		}
 		v := math.Float64frombits(i.tape.Tape[i.off])
-		if v > math.MaxInt64 {
+		// As a float64 constant MaxInt64 is 2^63, which does not fit.
+		if v >= math.MaxInt64 {
 			return 0, errors.New("float value overflows int64")
 		}
 		if v < math.MinInt64 {
@@ -691,7 +692,8 @@ func (i *Iter) Uint() (uint64, error) {
 			return 0, errors.New("corrupt input: expected float, but no more values on tape")
 		}
 		v := math.Float64frombits(i.tape.Tape[i.off])
-		if v > math.MaxUint64 {
+		// As a float64 constant MaxUint64 is 2^64, which does not fit.
+		if v >= math.MaxUint64 {
 			return 0, errors.New("float value overflows uint64")
 		}
 		if v < 0 {
